@@ -181,5 +181,32 @@ def run(ctx):
         rep.sample(dict(loop=mode, steps=steps, sampled=len(refs), alive=alive))
         if alive > 2:
             rep.violation("live:loop:" + mode, "%d of %d sampled intermediates of a %d-step untracked loop (%s) are still alive" % (alive, len(refs), steps, mode))
+    # bounded memory: the number of live Tensor objects after an untracked loop does not depend on its length, also when
+    # the Python-number operands take a new value at every step (running means, decaying step sizes)
+    def live_tensors():
+        gc.collect()
+        return sum(1 for o in gc.get_objects() if isinstance(o, sg.Tensor))
+    for mode in ("no_grad", "no_req"):
+        counts = []
+        for n in (500, 4000):
+            w = sg.Tensor(np.array(1.0, dtype=np.float32), requires_grad=(mode == "no_grad"))
+            m = sg.Tensor(np.array(0.0, dtype=np.float32))
+            base = live_tensors()
+            cm = sg.no_grad() if mode == "no_grad" else None
+            if cm:
+                cm.__enter__()
+            try:
+                for t in range(n):
+                    m = m * (1 - 1 / (t + 2)) + w * (1 / (t + 2)) - 0.001 * t / (t + 1.5)
+                    m = (2.0 + t) / (m + 3.0 + t) * 1.0
+            finally:
+                if cm:
+                    cm.__exit__(None, None, None)
+            counts.append(live_tensors() - base)
+            del m, w
+        rep.case("live-count:" + mode)
+        rep.sample(dict(loop="changing-scalars:" + mode, steps=[500, 4000], live_tensors_left=counts))
+        if counts[1] > counts[0] + 20:
+            rep.violation("live:count-grows:" + mode, "live Tensor objects left by an untracked loop with changing Python-number operands: %d after 500 steps, %d after 4000 steps" % (counts[0], counts[1]))
     rep.exhaustive = False
     return rep.finish()
